@@ -195,6 +195,50 @@ def run(ctx):
             core = set(x for x in eff if x[0] in ('thread_counter', 'work_round', 'wait', 'wait-once'))
             ok = need <= core and not [x for x in core - need if x[1] in ('set', 'inc')] and not [x for x in core if x[0] == 'wait-once']
             ctx.check(ok, 'R3', '%s::%s' % (cls.rsplit('::', 1)[-1], nm), where(fs[0]), 'effects %s, protocol %s' % (sorted(core, key=repr), sorted(need, key=repr)), key='R3|%s|%s' % (cls.rsplit('::', 1)[-1], nm))
+    # order inside master_signal: the completion counter is reset *before* the round number moves (the round number is what releases the workers: a worker released
+    # first could add its completion to the old counter value, which the reset then erases); threshold of master_wait: exactly num_workers, no offset
+    for cls in syn:
+        fs = [f for f in P.fns.values() if f['q'] == cls + '::master_signal' and f.get('blocks')]
+        if len(fs) == 1:
+            vv = A.view(fs[0])
+            orders = set()
+            for p_ in vv.paths(max_visits=1):
+                if p_.exit in ('noreturn', 'cut', 'throw'):
+                    continue
+                seq = []
+                for e in vv.path_events(p_):
+                    tgt = None
+                    if e.kind == 'call' and e.obj is not None and e.obj[0] == 'field' and e.obj[2] in (TC, WR) and e.q.rsplit('::', 1)[-1] in ('store', 'operator=', 'fetch_add', 'operator++'):
+                        tgt = e.obj[2]
+                    elif e.kind in ('assign', 'incdec') and e.lhs[0] == 'field' and e.lhs[2] in (TC, WR):
+                        tgt = e.lhs[2]
+                    if tgt:
+                        seq.append('counter' if tgt == TC else 'round')
+                orders.add(tuple(seq))
+            ctx.check(orders == {('counter', 'round')}, 'R3', '%s::master_signal resets the counter before it moves the round' % cls.rsplit('::', 1)[-1], where(fs[0]), 'write order(s): %s' % sorted(orders),
+                      key='R3|%s|master_signal order' % cls.rsplit('::', 1)[-1])
+        fs = [f for f in P.fns.values() if f['q'] == cls + '::master_wait' and f.get('blocks')]
+        if len(fs) == 1:
+            gs = [fs[0]] + [P.fns[n['fn']] for el in fs[0]['elems'] for n in ex.walk(el['x']) if n.get('k') == 'Lambda' and n['fn'] in P.fns]
+            exact = []
+            for g in gs:
+                vg = A.view(g)
+                terms = [vg.cond_atom(b['id'])[0] for b in vg.blocks if vg.cond_atom(b['id'])] + [e.val for eid in range(len(g['elems'])) for e in vg.events_of(eid) if e.kind == 'return' and e.val is not None]
+                for t in terms:
+                    for x in ex.subterms(t):
+                        if x[0] == 'bin' and x[1] in ('<', '>=', '<=', '>') and 'num_workers' in repr(x):
+                            sides = [x[2], x[3]]
+                            while sides[0][0] in ('cast', 'conv'):
+                                sides[0] = sides[0][2]
+                            while sides[1][0] in ('cast', 'conv'):
+                                sides[1] = sides[1][2]
+                            nw = [y for y in sides if y[0] == 'field' and y[2].endswith('::num_workers')]
+                            other = [y for y in sides if not (y[0] == 'field' and y[2].endswith('::num_workers'))]
+                            plain = len(nw) == 1 and len(other) == 1 and other[0][0] in ('var', 'field', 'call') and not any(z[0] == 'bin' and z[1] in ('+', '-') for z in ex.subterms(other[0]))
+                            strict = x[1] in ('<', '>=')
+                            exact.append(plain and strict)
+            ctx.check(bool(exact) and all(exact), 'R3', '%s::master_wait waits until the counter reaches exactly num_workers' % cls.rsplit('::', 1)[-1], where(fs[0]), '%d comparison(s)' % len(exact),
+                      key='R3|%s|master_wait threshold' % cls.rsplit('::', 1)[-1])
     wm = m('worker_main')
     v = A.view(wm)
     okw = False
